@@ -356,6 +356,13 @@ def gen_tcp(ctx):
                                             ("wait", 11), ("release", 1), ("wait", 6)]))
         out.append(dict(cfg=ab, n=3, steps=[("in", 0, 1), ("hold", 1), ("link", 0, 1, st0), ("in", 0, 2), ("wait", 6), ("heal",),
                                             ("wait", 6), ("wait", 61), ("release", 1)]))
+    # a completion (or halt) waits in the backlog until the peer is in the RESYNC period: the full state transfer that
+    # then goes out comes from a sender that remembers the run as finished AND still has it in the backlog
+    for st in ("down", "fail"):
+        for gap in ([("wait", 61)], [("wait", 6), ("wait", 61)], [("wait", 31), ("wait", 31)]):
+            out.append(dict(cfg=ab, n=2, steps=[("in", 0, 1), ("link", 0, 1, st), ("in", 0, 2)] + gap + [("heal",), ("wait", 11), ("wait", 11)]))
+            out.append(dict(cfg=ab, n=3, steps=[("in", 0, 1), ("in", 1, 1), ("link", 0, 1, st), ("link", 0, 2, st), ("in", 0, 2)] + gap +
+                                               [("heal",), ("wait", 11), ("wait", 11)]))
     # the plain sequence: a completion whose send fails after delivery, retried twice
     for st in ("fail", "down"):
         out.append(dict(cfg=ab, n=2, steps=[("in", 0, 1), ("link", 0, 1, st), ("in", 0, 2), ("wait", 6), ("wait", 6), ("heal",), ("wait", 6)]))
